@@ -363,3 +363,279 @@ Lemma parse_print_Z z : parse_Z (print_Z z) = Some z.
 Proof.
   unfold parse_Z, print_Z. rewrite NilEmpty.isi. cbn. now rewrite DecimalZ.of_to.
 Qed.
+
+(* ================================================================= 5. load (dump c) = c, COO *)
+Lemma concat_chunks_fuel {A} fuel n (l : list A) : concat (chunks_fuel fuel n l) = l.
+Proof.
+  revert l. induction fuel as [|f IH]; intro l; destruct l as [|x t]; try reflexivity.
+  - cbn. now rewrite app_nil_r.
+  - cbn [chunks_fuel concat]. rewrite IH. apply firstn_skipn.
+Qed.
+
+Lemma concat_chunks_of {A} n (l : list A) : concat (chunks_of n l) = l.
+Proof. apply concat_chunks_fuel. Qed.
+
+Lemma chunks_fuel_map {A B} (g : A -> B) fuel n l :
+  chunks_fuel fuel n (map g l) = map (map g) (chunks_fuel fuel n l).
+Proof.
+  revert l. induction fuel as [|f IH]; intro l; destruct l as [|x t]; try reflexivity.
+  cbn [chunks_fuel map]. change (g x :: map g t) with (map g (x :: t)).
+  rewrite firstn_map, skipn_map, IH. reflexivity.
+Qed.
+
+Lemma chunks_of_map {A B} (g : A -> B) n l : chunks_of n (map g l) = map (map g) (chunks_of n l).
+Proof. unfold chunks_of. rewrite map_length. apply chunks_fuel_map. Qed.
+
+Lemma chunks_fuel_infix {A} fuel n (l : list A) :
+  Forall (fun ch => exists a b, a ++ ch ++ b = l) (chunks_fuel fuel n l).
+Proof.
+  revert l. induction fuel as [|f IH]; intro l; destruct l as [|x t]; try (now constructor).
+  - constructor; [|constructor]. exists [], []. cbn. now rewrite app_nil_r.
+  - cbn [chunks_fuel]. constructor.
+    + exists [], (skipn n (x :: t)). cbn [app]. apply firstn_skipn.
+    + specialize (IH (skipn n (x :: t))). rewrite Forall_forall in *. intros ch Hch.
+      destruct (IH ch Hch) as (a & b & E). exists (firstn n (x :: t) ++ a), b.
+      rewrite <- app_assoc, E. apply firstn_skipn.
+Qed.
+
+Lemma ssorted_app_inv {A} (R : A -> A -> Prop) a b :
+  StronglySorted R (a ++ b) -> StronglySorted R a /\ StronglySorted R b.
+Proof.
+  induction a as [|x t IH]; cbn; intro H; [split; [constructor|assumption]|].
+  apply StronglySorted_inv in H as [Ht Hx]. destruct (IH Ht) as [Ha Hb]. split; [|assumption].
+  constructor; [assumption|]. apply Forall_app in Hx. tauto.
+Qed.
+
+Lemma SSorted_infix a ch b : SSorted (a ++ ch ++ b) -> SSorted ch.
+Proof.
+  unfold SSorted, keys. rewrite !map_app. intro H.
+  apply ssorted_app_inv in H as [_ H]. now apply ssorted_app_inv in H as [H _].
+Qed.
+
+Lemma keqb_klt_false k k' : klt k k' -> keqb k k' = false.
+Proof. unfold klt, keqb. lia. Qed.
+
+Lemma SSorted_no_dup_key l : SSorted l -> has_dup_key l = false.
+Proof.
+  unfold SSorted, keys. induction l as [|p t IH]; intro H; [reflexivity|].
+  cbn in H. apply StronglySorted_inv in H as [Ht Hp]. cbn. rewrite (IH Ht), orb_false_r.
+  apply not_true_is_false. intro E. apply existsb_exists in E as (q & Hq & Eq).
+  rewrite Forall_forall in Hp. specialize (Hp (fst q) (in_map fst _ _ Hq)).
+  rewrite (keqb_klt_false _ _ Hp) in Eq. discriminate.
+Qed.
+
+(** the ids as `cooler dump [--one-based-ids]` prints them *)
+Definition shift_ids (one_based : bool) (p : pixel) : pixel :=
+  if one_based then ((row p + 1, col p + 1), val p) else p.
+
+(** no record is altered or dropped by the sanitiser: the table is upper triangular, or no triangle action is taken *)
+Definition tril_harmless (t : tril) (px : list pixel) : Prop :=
+  t = Keep \/ forall p, In p px -> row p <= col p.
+
+Lemma sanitize_shifted ob t px p :
+  tril_harmless t px -> In p px -> sanitize_pixel ob t (shift_ids ob p) = [p].
+Proof.
+  intros Ht Hp. destruct p as [[a b] v]. unfold sanitize_pixel, shift_ids, row, col, val. cbn [fst snd].
+  destruct ob; cbn [fst snd].
+  - replace (a + 1 - 1) with a by lia. replace (b + 1 - 1) with b by lia.
+    destruct Ht as [->|Hu]; [now destruct (b <? a)|].
+    specialize (Hu _ Hp). unfold row, col in Hu. cbn in Hu. destruct (b <? a) eqn:E; [lia|reflexivity].
+  - destruct Ht as [->|Hu]; [now destruct (b <? a)|].
+    specialize (Hu _ Hp). unfold row, col in Hu. cbn in Hu. destruct (b <? a) eqn:E; [lia|reflexivity].
+Qed.
+
+Lemma concat_map_singleton {A B} (f : A -> list B) (g : A -> B) l :
+  (forall x, In x l -> f x = [g x]) -> concat (map f l) = map g l.
+Proof.
+  induction l as [|x t IH]; intro H; [reflexivity|]. cbn. rewrite (H x (or_introl eq_refl)). cbn.
+  f_equal. apply IH. intros y Hy. apply H. now right.
+Qed.
+
+Lemma in_chunk_in {A} n (l : list A) ch x : In ch (chunks_of n l) -> In x ch -> In x l.
+Proof.
+  intros Hch Hx. rewrite <- (concat_chunks_of n l). apply in_concat. now exists ch.
+Qed.
+
+Theorem load_pixels_roundtrip ob t chunk px :
+  SSorted px -> tril_harmless t px ->
+  load_pixels ob t chunk (map (shift_ids ob) px) = Some px.
+Proof.
+  intros Hs Ht. unfold load_pixels. rewrite chunks_of_map, map_map.
+  assert (E : map (fun ch => concat (map (sanitize_pixel ob t) (map (shift_ids ob) ch))) (chunks_of chunk px)
+              = chunks_of chunk px).
+  { rewrite <- (map_id (chunks_of chunk px)) at 2. apply map_ext_in. intros ch Hch.
+    rewrite map_map. rewrite (concat_map_singleton _ (fun p => p)); [apply map_id|].
+    intros p Hp. apply (sanitize_shifted ob t px); [assumption|]. now apply (in_chunk_in chunk px ch). }
+  rewrite E.
+  assert (Hd : existsb has_dup_key (chunks_of chunk px) = false).
+  { apply not_true_is_false. intro X. apply existsb_exists in X as (ch & Hch & Hdup).
+    pose proof (chunks_fuel_infix (length px) chunk px) as Hin. rewrite Forall_forall in Hin.
+    destruct (Hin ch Hch) as (a & b & Eab). rewrite <- Eab in Hs.
+    rewrite (SSorted_no_dup_key ch (SSorted_infix _ _ _ Hs)) in Hdup. discriminate. }
+  rewrite Hd, concat_chunks_of. f_equal. now apply aggregate_sorted_id.
+Qed.
+
+(** the schema `cooler load -f coo` assembles when no --field is given *)
+Definition coo_schema : schema :=
+  {| s_in := ["bin1_id"; "bin2_id"; "count"]%string;
+     s_num := [("bin1_id", 0); ("bin2_id", 1); ("count", 2)]%string;
+     s_out := ["bin1_id"; "bin2_id"; "count"]%string |}.
+Lemma load_schema_coo_default : load_schema false [] = Some coo_schema.
+Proof. reflexivity. Qed.
+
+Lemma coo_record_printed a b v :
+  coo_record coo_schema "count" [print_Z a; print_Z b; print_Z v] = Some ((a, b), v).
+Proof.
+  unfold coo_record.
+  generalize (parse_print_Z a), (parse_print_Z b), (parse_print_Z v).
+  generalize (print_Z a), (print_Z b), (print_Z v). intros x y z Hx Hy Hz.
+  let t := eval vm_compute in (read_fields (s_in coo_schema) (s_num coo_schema) [x; y; z]) in
+  change (read_fields (s_in coo_schema) (s_num coo_schema) [x; y; z]) with t.
+  cbn [assoc String.eqb Ascii.eqb Bool.eqb]. cbn. now rewrite Hx, Hy, Hz.
+Qed.
+
+Lemma mapM_coo_text ob px :
+  mapM (coo_record coo_schema "count") (coo_text ob px) = Some (map (shift_ids ob) px).
+Proof.
+  induction px as [|p t IH]; [reflexivity|].
+  unfold coo_text in *. cbn [map mapM]. rewrite coo_record_printed, IH.
+  destruct p as [[a b] v]. unfold shift_ids, row, col, val. cbn [fst snd].
+  destruct ob; [reflexivity|]. now rewrite !Z.add_0_r.
+Qed.
+
+(** load_dump_roundtrip, COO: re-importing the (zero- or one-based) COO text of the stored table with the matching
+    --one-based setting, any chunk size and any triangle action that is harmless for the table gives the table back *)
+Theorem load_dump_roundtrip_coo ob t chunk px :
+  SSorted px -> tril_harmless t px ->
+  load_coo coo_schema "count" ob t chunk (coo_text ob px) = Some px.
+Proof.
+  intros Hs Ht. unfold load_coo. rewrite mapM_coo_text. now apply load_pixels_roundtrip.
+Qed.
+
+(* ================================================================= 6. each option has its documented effect *)
+Definition with_ids1 (o : dopts) (b : bool) : dopts :=
+  {| o_range := o_range o; o_fill := o_fill o; o_balanced := o_balanced o; o_join := o_join o; o_annot := o_annot o;
+     o_ids1 := b; o_starts1 := o_starts1 o; o_columns := o_columns o; o_header := o_header o |}.
+Definition with_starts1 (o : dopts) (b : bool) : dopts :=
+  {| o_range := o_range o; o_fill := o_fill o; o_balanced := o_balanced o; o_join := o_join o; o_annot := o_annot o;
+     o_ids1 := o_ids1 o; o_starts1 := b; o_columns := o_columns o; o_header := o_header o |}.
+Definition with_columns (o : dopts) (cs : option (list string)) : dopts :=
+  {| o_range := o_range o; o_fill := o_fill o; o_balanced := o_balanced o; o_join := o_join o; o_annot := o_annot o;
+     o_ids1 := o_ids1 o; o_starts1 := o_starts1 o; o_columns := cs; o_header := o_header o |}.
+
+Definition inc_cell (x : cell) : cell := match x with CZ z => CZ (z + 1) | y => y end.
+
+(** [bump names] adds one to the integer cells of the named columns and touches nothing else *)
+Lemma assoc_bump names r n :
+  assoc n (bump names r) = option_map (fun v => if mem_str n names then inc_cell v else v) (assoc n r).
+Proof.
+  induction r as [|[m v] t IH]; [reflexivity|]. cbn.
+  destruct (mem_str m names) eqn:Em; cbn; destruct (String.eqb n m) eqn:E; try apply IH.
+  - apply String.eqb_eq in E. subst. cbn. rewrite Em. now destruct v.
+  - apply String.eqb_eq in E. subst. cbn. now rewrite Em.
+Qed.
+
+Lemma bump_names names r : map fst (bump names r) = map fst r.
+Proof.
+  unfold bump. rewrite map_map. apply map_ext. intros [m v]. cbn. now destruct (mem_str m names).
+Qed.
+
+Lemma bump_comm a b r : bump a (bump b r) = bump b (bump a r).
+Proof.
+  unfold bump. rewrite !map_map. apply map_ext. intros [m v]. cbn [fst snd].
+  destruct (mem_str m b) eqn:Eb; cbn [fst snd]; destruct (mem_str m a) eqn:Ea; cbn [fst snd]; rewrite ?Eb, ?Ea; try reflexivity.
+Qed.
+
+Lemma project_bump names cols r :
+  project cols (bump names r) = option_map (bump names) (project cols r).
+Proof.
+  induction cols as [|n t IH]; [reflexivity|]. cbn [project]. rewrite assoc_bump, IH.
+  destruct (assoc n r) as [v|]; cbn [option_map]; [|reflexivity].
+  destruct (project t r) as [d|]; cbn [option_map]; [|reflexivity].
+  f_equal. unfold bump. cbn [map fst snd]. destruct (mem_str n names); [destruct v|]; reflexivity.
+Qed.
+
+(** --one-based-ids, for every setting of the other options: exactly the cells of the columns named bin1_id / bin2_id
+    (where present) are increased by one; same columns, same order, nothing else changes *)
+Theorem one_based_ids_effect c o p :
+  annot_row c (with_ids1 o true) p
+  = option_map (bump ["bin1_id"; "bin2_id"]%string) (annot_row c (with_ids1 o false) p).
+Proof.
+  unfold annot_row, with_ids1. cbn [o_ids1 o_starts1 o_columns o_annot o_join o_balanced].
+  match goal with |- context [oapp (oapp ?a ?b) ?e] => destruct (oapp (oapp a b) e) as [r|] end; [|reflexivity].
+  destruct (o_starts1 o), (o_columns o) as [cols|]; cbn [option_map];
+    rewrite ?(bump_comm ["start1"; "start2"]%string), ?project_bump; reflexivity.
+Qed.
+
+(** --one-based-starts, for every setting of the other options: exactly the columns named start1 / start2 *)
+Theorem one_based_starts_effect c o p :
+  annot_row c (with_starts1 o true) p
+  = option_map (bump ["start1"; "start2"]%string) (annot_row c (with_starts1 o false) p).
+Proof.
+  unfold annot_row, with_starts1. cbn [o_ids1 o_starts1 o_columns o_annot o_join o_balanced].
+  match goal with |- context [oapp (oapp ?a ?b) ?e] => destruct (oapp (oapp a b) e) as [r|] end; [|reflexivity].
+  destruct (o_ids1 o), (o_columns o) as [cols|]; cbn [option_map]; rewrite ?project_bump; reflexivity.
+Qed.
+
+(** -c / --columns projects: the named columns of the unrestricted row, in the requested order *)
+Theorem columns_effect c o cols p :
+  annot_row c (with_columns o (Some cols)) p
+  = match annot_row c (with_columns o None) p with Some r => project cols r | None => None end.
+Proof.
+  unfold annot_row, with_columns. cbn [o_ids1 o_starts1 o_columns o_annot o_join o_balanced].
+  match goal with |- context [oapp (oapp ?a ?b) ?e] => destruct (oapp (oapp a b) e) as [r|] end; reflexivity.
+Qed.
+
+Lemma project_spec cols r r' :
+  project cols r = Some r' -> map fst r' = cols /\ forall n, In n cols -> assoc n r' = assoc n r.
+Proof.
+  revert r'. induction cols as [|n t IH]; intros r' H; cbn in H.
+  - injection H as <-. split; [reflexivity|contradiction].
+  - destruct (assoc n r) as [v|] eqn:Ev; [|discriminate]. destruct (project t r) as [r''|]; [|discriminate].
+    injection H as <-. destruct (IH r'' eq_refl) as [Hn Ha]. split; [cbn; now rewrite Hn|].
+    intros m [<-|Hm]; cbn.
+    + now rewrite String.eqb_refl.
+    + destruct (String.eqb m n) eqn:E; [apply String.eqb_eq in E; now subst|now apply Ha].
+Qed.
+
+(** --join replaces the two ids by chrom/start/end of the pixel's OWN two bins (row bin first), for every setting of
+    balanced / one-based-ids / one-based-starts *)
+Theorem join_effect c o p :
+  o_join o = true -> o_annot o = None -> o_columns o = None ->
+  annot_row c o p =
+    Some (let d := if o_starts1 o then 1 else 0 in
+          let b1 := bin_at c (row p) in let b2 := bin_at c (col p) in
+          [("chrom1", CS (chrom_name c b1)); ("start1", CZ (bstart b1 + d)); ("end1", CZ (bend b1));
+           ("chrom2", CS (chrom_name c b2)); ("start2", CZ (bstart b2 + d)); ("end2", CZ (bend b2));
+           ("count", CZ (val p))]%string
+          ++ (if o_balanced o then [("balanced"%string, CQ (balanced_value c p))] else [])).
+Proof.
+  intros Hj Ha Hc. unfold annot_row. rewrite Hj, Ha, Hc.
+  destruct (o_balanced o), (o_ids1 o), (o_starts1 o); cbn; rewrite ?Z.add_0_r; reflexivity.
+Qed.
+
+(** without --join the row carries the two ids (plus one with --one-based-ids), the count and, with -b, the balanced value *)
+Theorem plain_effect c o p :
+  o_join o = false -> o_annot o = None -> o_columns o = None ->
+  annot_row c o p =
+    Some (let d := if o_ids1 o then 1 else 0 in
+          [("bin1_id", CZ (row p + d)); ("bin2_id", CZ (col p + d)); ("count", CZ (val p))]%string
+          ++ (if o_balanced o then [("balanced"%string, CQ (balanced_value c p))] else [])).
+Proof.
+  intros Hj Ha Hc. unfold annot_row. rewrite Hj, Ha, Hc.
+  destruct (o_balanced o), (o_ids1 o), (o_starts1 o); cbn; rewrite ?Z.add_0_r; reflexivity.
+Qed.
+
+(** annotator errors do not depend on the record (they are column-level) *)
+Lemma side_cols_none_indep c fs suf i j : side_cols c fs suf i = None -> side_cols c fs suf j = None.
+Proof.
+  unfold side_cols. induction fs as [|f t IH]; cbn; [discriminate|].
+  assert (Hf : bin_field c f i = None <-> bin_field c f j = None).
+  { unfold bin_field. repeat match goal with |- context [if ?b then _ else _] => destruct b end; try tauto;
+      split; discriminate. }
+  destruct (bin_field c f i) eqn:Ei; cbn.
+  - destruct (bin_field c f j) eqn:Ej; cbn; [|reflexivity].
+    destruct (mapM _ t) eqn:Et at 1; [discriminate|]. intros _.
+    rewrite IH; [reflexivity|]. exact Et.
+  - intros _. destruct Hf as [Hf _]. now rewrite (Hf eq_refl).
+Qed.
